@@ -321,10 +321,11 @@ package cache
 //@     && (forall k PKey :: tstore[t.t][k] != nil && pnonempty(k) ==> pfirst(k) != root)
 //@   invariant 0: len(owed) == 0 && StoredWf(t) && OthersKept(t)
 //@     && (forall k PKey :: tstore[t.t][k] != nil ==> has($range, pfirst(k)) && (pfirst(k) == "meta" || !has($visited, pfirst(k))))
-//@     && (forall k PKey :: old(tstore[t.t][k]) != nil && tstore[t.t][k] == nil ==> has(wiped[t.name], pfirst(k)))
+//@     && (forall k PKey :: old(tstore[t.t][k]) != nil ==> has($range, pfirst(k)))
+//@     && (forall r string :: has($visited, r) && r != "meta" ==> has(wiped[t.name], r))
 //@     && (forall s string :: s != t.name ==> wiped[s] == old(wiped[s]))
 //@   ensures [only-metadata-left C14] forall k PKey :: tstore[t.t][k] != nil ==> pfirst(k) == "meta"
-//@   ensures [removed-leaves-announced C14] forall k PKey :: old(tstore[t.t][k]) != nil && tstore[t.t][k] == nil ==> has(wiped[t.name], pfirst(k))
+//@   ensures [removed-leaves-announced C14] forall k PKey :: old(tstore[t.t][k]) != nil && pfirst(k) != "meta" ==> has(wiped[t.name], pfirst(k))
 //@   ensures [other-targets-untouched C14] OthersKept(t) && (forall s string :: s != t.name ==> wiped[s] == old(wiped[s]))
 //@   ensures [all-announced C03] len(owed) == 0
 //@   ensures StoredWf(t)
